@@ -366,23 +366,15 @@ func (l *commitLog) LatestOffsetBeforeTimestamp(timestamp int64) (int64, error) 
 		seg = l.segments[idx-1]
 	}
 
-	// Find entry equal to or greater than the given timestamp.
-	entry, err := seg.findEntryByTimestamp(timestamp)
-	if err == nil {
-		// If it's an exact match, return the offset.
-		if entry.Timestamp == timestamp {
-			return entry.Offset, nil
-		}
-
-		// Otherwise we want the previous offset.
-		return entry.Offset - 1, nil
-	}
-
-	if err != ErrEntryNotFound && err != io.EOF {
+	// Find the last entry whose timestamp is less than or equal to the given
+	// timestamp. The segment's first entry is at or before the timestamp, so
+	// there is one. Offsets are not necessarily contiguous (compaction), so
+	// this is not simply the offset preceding the first later entry.
+	entry, err := seg.findLatestEntryByTimestamp(timestamp)
+	if err != nil {
 		return 0, errors.Wrap(err, "failed to find log entry for timestamp")
 	}
-
-	return seg.lastOffset, nil
+	return entry.Offset, nil
 }
 
 // SetHighWatermark sets the high watermark on the log. All messages up to and
